@@ -851,10 +851,9 @@ def run(ctx):
     # mechanism models that must break the law (a membership memo keyed on the length; relabel adopting the caller's dict)
     s2c_sessions(ctx, log, gen(ctx, 'MC_AlgebraSes', 'MC_AlgebraSes_gen.cfg' if ctx.quick else 'MC_AlgebraSes_gent.cfg'), all_nests=False)
     if not ctx.quick:
-        ctx.mc('MC_AlgebraSes', 'MC_AlgebraSes_thorough.cfg')
         ctx.mc('MC_AlgebraSes', 'MC_AlgebraSes_memo.cfg', must_fail='MemoIsMembers', coverage=False)
         ctx.mc('MC_AlgebraSes', 'MC_AlgebraSes_adopt.cfg', must_fail='CallsOwnNothing', coverage=False)
-        sim = sorted(ctx.generate('MC_AlgebraSes', 'MC_AlgebraSes_sim.cfg', simulate=30000, depth=12, seed=ctx.seed + 16),
+        sim = sorted(ctx.generate('MC_AlgebraSes', 'MC_AlgebraSes_sim.cfg', simulate=10000, depth=12, seed=ctx.seed + 16),
                      key=lambda c: json.dumps(c, sort_keys=True))
         s2c_sessions(ctx, log, sim, all_nests=False)
     c2s_useq(ctx, log, 500 if ctx.quick else 6000)
